@@ -46,23 +46,27 @@ type WaitOrder struct {
 	Text  string
 	File  string
 	Line  int
+	LocksOnly bool // declared as `lockorder`: only lock acquisitions are ordered (classic lock ordering); waits on channels and WaitGroups are not judged
 }
 
 const timerLevel = 1 << 30
 
 func parseWaitOrder(pkg, rest, file string, line int) (*WaitOrder, error) {
 	wo := &WaitOrder{Pkg: pkg, Level: map[string]int{}, Text: rest, File: file, Line: line}
-	for i, n := range strings.Split(rest, "<") {
-		n = strings.TrimSpace(n)
-		if n == "" {
-			return nil, fmt.Errorf("%s:%d: waitorder: empty class name", file, line)
+	for i, grp := range strings.Split(rest, "<") {
+		// A = B: two names of one class (the same lock reached through two fields)
+		for _, n := range strings.Split(grp, "=") {
+			n = strings.TrimSpace(n)
+			if n == "" {
+				return nil, fmt.Errorf("%s:%d: waitorder: empty class name", file, line)
+			}
+			q := qualifyClass(pkg, n)
+			if _, dup := wo.Level[q]; dup {
+				return nil, fmt.Errorf("%s:%d: waitorder: class %s listed twice", file, line, n)
+			}
+			wo.Level[q] = (i + 1) * 10
+			wo.Names = append(wo.Names, q)
 		}
-		q := qualifyClass(pkg, n)
-		if _, dup := wo.Level[q]; dup {
-			return nil, fmt.Errorf("%s:%d: waitorder: class %s listed twice", file, line, n)
-		}
-		wo.Level[q] = (i + 1) * 10
-		wo.Names = append(wo.Names, q)
 	}
 	return wo, nil
 }
@@ -243,6 +247,9 @@ func (x *Exec) waitCheck(st *State, site string, cases []waitCase, exempt map[*T
 	if wo == nil {
 		return
 	}
+	if wo.LocksOnly && !strings.HasPrefix(site, "lock:") && !strings.HasPrefix(site, "call:") {
+		return
+	}
 	k := x.site(st, "waitlevel:"+site)
 	name := fmt.Sprintf("waitlevel:blocks-only-above-what-it-holds@%s#%d", site, k)
 	floor, hasFloor := 0, false
@@ -299,7 +306,7 @@ func (x *Exec) waitCheck(st *State, site string, cases []waitCase, exempt map[*T
 		}
 		var conj []*Term
 		for _, o := range st.Oblig {
-			if exempt[o.Ref] {
+			if exempt[o.Ref] || wo.LocksOnly {
 				continue
 			}
 			ol, ok := wo.level(o.Class)
@@ -338,6 +345,11 @@ func (x *Exec) waitCheckCall(st *State, callee *ssa.Function, fc *FuncContract, 
 	}
 	c := declaredWaits(fc)
 	if c == "" {
+		return
+	}
+	if callee.Pkg != nil && x.Fn.Pkg != nil && callee.Pkg != x.Fn.Pkg {
+		// orders are per package: what a callee of another package waits on is outside this package's order
+		x.note("ASSUMED (wait levels): " + name + " belongs to another package; the objects it blocks on are disjoint from this package's and it never calls back into this package")
 		return
 	}
 	exempt := map[*Term]bool{}
